@@ -1214,3 +1214,717 @@ Proof.
     + rewrite Hk. rewrite (flat_map_ext_in (rowsof s') (rowsof s)) by auto.
       rewrite (flat_map_ext_in (rowsof s') (rowsof s) U) by auto. exact A3.
 Qed.
+
+Lemma target_lt R0 s c t : inv R0 s -> In t (unswapped (pcof s c)) -> t < s_next s.
+Proof. intros I H. apply (i_fresh_target I c). apply unswapped_target. exact H. Qed.
+
+Lemma invb_put V0 R0 s rows : inv R0 s -> invb V0 s -> invb V0 (put_object s rows).
+Proof.
+  intros I B.
+  assert (Hr : forall p, p < s_next s -> rowsof (put_object s rows) p = rowsof s p).
+  { intros p Hp. apply rowsof_put_old. intros ->. apply N.lt_irrefl in Hp. exact Hp. }
+  constructor.
+  - exact (b_nodup B).
+  - exact (b_claims B).
+  - exact (b_unsw B).
+  - exact (b_disj B).
+  - intros c. change (pcof (put_object s rows) c) with (pcof s c).
+    apply pc_exact_transfer with (s := s).
+    + intros p Hp. apply Hr. exact (group_lt _ _ _ _ I Hp).
+    + intros t Ht. apply Hr. exact (i_fresh_target I c t Ht).
+    + apply (b_exact B).
+  - destruct (b_vis B) as [U [A1 [A2 A3]]]. exists U. split; [exact A1|split; [exact A2|]].
+    change (cat_keys (put_object s rows)) with (cat_keys s).
+    rewrite !flat_rowsof_put; [exact A3| |].
+    + intros t Ht. apply A2 in Ht. destruct Ht as [c Hc]. exact (target_lt _ _ _ _ I Hc).
+    + intros p Hp. apply (i_fresh_seen I). left. exact Hp.
+Qed.
+
+(* register_chunk(target): the target joins the catalog and the unswapped set *)
+Lemma invb_register V0 R0 s c l g t rows p' :
+  inv R0 s -> invb V0 s ->
+  pcof s c = PReg l g t rows -> p_pc p' = PSwap l g t ->
+  invb V0 (set_proc (set_cat s (cat_register (s_cat s) t)) c p').
+Proof.
+  intros I B E E'.
+  pose proof (i_pc I c) as Hok. rewrite E in Hok. destruct Hok as [_ [Hct Hns]].
+  assert (Hnk : ~ In t (cat_keys s)) by (intros H; apply Hns; left; exact H).
+  assert (Hg : incl g (p_snap (get_proc s c))) by (pose proof (proj1 (i_snap I c)) as H; rewrite E in H; exact H).
+  assert (Htg : ~ In t g) by (intros H; apply Hns; right; right; exists c; apply Hg; exact H).
+  set (s1 := set_cat s (cat_register (s_cat s) t)).
+  assert (Hk : cat_keys s1 = cat_keys s ++ [t]).
+  { unfold s1, cat_keys, cat_register; simpl. apply keys_aset_absent. exact Hnk. }
+  assert (Hex : pc_exact s (PReg l g t rows)) by (rewrite <- E; apply (b_exact B)).
+  assert (Hrt : rowsof s t = rows) by (unfold rowsof; rewrite Hct; reflexivity).
+  assert (Hcl : claims (pcof s c) = g) by (rewrite E; reflexivity).
+  assert (Hpc : forall c', pcof (set_proc s1 c p') c' = if N.eqb c' c then PSwap l g t else pcof s c').
+  { intros c'. rewrite pcof_set_proc. rewrite E'. reflexivity. }
+  assert (Htu : forall c', c' <> c -> ~ In t (claims (pcof s c')) /\ ~ In t (unswapped (pcof s c'))).
+  { intros c' Hne. split.
+    - intros H. apply Hnk. apply (proj2 (b_claims B c')). exact H.
+    - intros H. apply Hnk. apply (b_unsw B c' t H). }
+  constructor.
+  - change (cat_keys (set_proc s1 c p')) with (cat_keys s1). rewrite Hk.
+    apply NoDup_app_intro; [exact (b_nodup B)|constructor; [intros []|constructor]|].
+    intros x Hx [<-|[]]. exact (Hnk Hx).
+  - intros c'. rewrite Hpc. change (cat_keys (set_proc s1 c p')) with (cat_keys s1). rewrite Hk.
+    destruct (N.eqb c' c) eqn:Ec; simpl.
+    + rewrite <- Hcl. split; [apply (b_claims B)|apply incl_appl; apply (b_claims B)].
+    + split; [apply (b_claims B)|apply incl_appl; apply (b_claims B)].
+  - intros c' x. rewrite Hpc. change (cat_keys (set_proc s1 c p')) with (cat_keys s1). rewrite Hk.
+    destruct (N.eqb c' c) eqn:Ec; simpl.
+    + intros [<-|[]]. split; [apply in_or_app; right; left; reflexivity|exact Htg].
+    + intros Hx. destruct (b_unsw B c' x Hx). split; [apply in_or_app; left; assumption|assumption].
+  - intros c1 c2 Hne. rewrite !Hpc.
+    destruct (N.eqb c1 c) eqn:E1; destruct (N.eqb c2 c) eqn:E2; simpl.
+    + apply N.eqb_eq in E1, E2. congruence.
+    + apply N.eqb_eq in E1. subst c1. split.
+      * rewrite <- Hcl. apply (b_disj B c c2 Hne).
+      * intros x [<-|[]]. apply Htu. intros ->. apply Hne. reflexivity.
+    + apply N.eqb_eq in E2. subst c2. rewrite <- Hcl. apply (b_disj B c1 c Hne).
+    + apply (b_disj B c1 c2 Hne).
+  - intros c'. rewrite Hpc.
+    apply pc_exact_transfer with (s := s); auto.
+    destruct (N.eqb c' c); [|apply (b_exact B)].
+    simpl. rewrite Hrt. exact Hex.
+  - destruct (b_vis B) as [U [A1 [A2 A3]]]. exists (t :: U). split; [|split].
+    + constructor; [|exact A1]. intros Hu. apply A2 in Hu. destruct Hu as [c' Hc'].
+      destruct (N.eq_dec c' c) as [->|Hne]; [rewrite E in Hc'; destruct Hc'|].
+      apply (proj2 (Htu c' Hne)). exact Hc'.
+    + intros x. simpl. rewrite A2. split.
+      * intros [<-|[c' Hc']].
+        -- exists c. rewrite Hpc, N.eqb_refl. left; reflexivity.
+        -- exists c'. rewrite Hpc. destruct (N.eqb c' c) eqn:Ec; [|exact Hc'].
+           apply N.eqb_eq in Ec. subst c'. rewrite E in Hc'. destruct Hc'.
+      * intros [c' Hc']. rewrite Hpc in Hc'. destruct (N.eqb c' c) eqn:Ec.
+        -- left. destruct Hc' as [H|[]]. exact H.
+        -- right. exists c'. exact Hc'.
+    + change (cat_keys (set_proc s1 c p')) with (cat_keys s1). rewrite Hk.
+      change (rowsof (set_proc s1 c p')) with (rowsof s).
+      rewrite flat_map_app. simpl. rewrite app_nil_r.
+      eapply Permutation_trans; [apply Permutation_app_tail; exact A3|].
+      rewrite <- app_assoc. apply Permutation_app_head. apply Permutation_app_comm.
+Qed.
+
+(* complete_compaction: the sources leave the catalog, the target stops being unswapped *)
+Lemma invb_swap V0 R0 s c l g t c' p' :
+  inv R0 s -> invb V0 s ->
+  pcof s c = PSwap l g t -> cat_complete (s_cat s) g t = Some c' ->
+  claims (p_pc p') = [] -> unswapped (p_pc p') = [] -> pc_exact s (p_pc p') ->
+  invb V0 (set_proc (set_cat s c') c p').
+Proof.
+  intros I B E Hcc Hc0 Hu0 Hex0.
+  destruct (cat_complete_some _ _ _ _ Hcc) as [Htin [Htg [Hkeys _]]].
+  set (s1 := set_cat s c').
+  assert (Hk : forall p, In p (cat_keys s1) <-> In p (cat_keys s) /\ ~ In p g).
+  { intros p. unfold s1, cat_keys; simpl. rewrite Hkeys, filter_In, negb_true_iff, memN_false. reflexivity. }
+  assert (Hcl : claims (pcof s c) = g) by (rewrite E; reflexivity).
+  assert (Hun : unswapped (pcof s c) = [t]) by (rewrite E; reflexivity).
+  assert (Hex : Permutation (rowsof s t) (flat_map (rowsof s) g)).
+  { pose proof (b_exact B c) as H. rewrite E in H. exact H. }
+  assert (Hpc : forall c2, pcof (set_proc s1 c p') c2 = if N.eqb c2 c then p_pc p' else pcof s c2).
+  { intros c2. rewrite pcof_set_proc. reflexivity. }
+  destruct (b_claims B c) as [Hgnd Hgin]. rewrite Hcl in Hgnd, Hgin.
+  constructor.
+  - change (cat_keys (set_proc s1 c p')) with (cat_keys s1). unfold s1, cat_keys; simpl.
+    rewrite Hkeys. apply NoDup_filter. exact (b_nodup B).
+  - intros c2. rewrite Hpc. destruct (N.eqb c2 c) eqn:Ec.
+    + rewrite Hc0. split; [constructor|intros x []].
+    + split; [apply (b_claims B)|]. intros x Hx. apply Hk. split; [apply (b_claims B c2); exact Hx|].
+      rewrite <- Hcl. intros Hx'. apply (proj1 (b_disj B c c2 (fun H => ltac:(subst; rewrite N.eqb_refl in Ec; discriminate))) x Hx'). exact Hx.
+  - intros c2 x. rewrite Hpc. destruct (N.eqb c2 c) eqn:Ec.
+    + rewrite Hu0. intros [].
+    + intros Hx. destruct (b_unsw B c2 x Hx) as [H1 H2]. split; [|exact H2].
+      apply Hk. split; [exact H1|]. rewrite <- Hcl.
+      apply (proj2 (b_disj B c2 c (fun H => ltac:(subst; rewrite N.eqb_refl in Ec; discriminate))) x Hx).
+  - intros c1 c2 Hne. rewrite !Hpc.
+    destruct (N.eqb c1 c) eqn:E1; destruct (N.eqb c2 c) eqn:E2.
+    + apply N.eqb_eq in E1, E2. congruence.
+    + rewrite Hc0, Hu0. split; intros x [].
+    + rewrite Hc0. split; intros x _ [].
+    + apply (b_disj B c1 c2 Hne).
+  - intros c2. rewrite Hpc. apply pc_exact_transfer with (s := s); auto.
+    destruct (N.eqb c2 c); [exact Hex0|apply (b_exact B)].
+  - destruct (b_vis B) as [U [A1 [A2 A3]]]. exists (removeN t U).
+    assert (HtU : In t U) by (apply A2; exists c; rewrite Hun; left; reflexivity).
+    split; [|split].
+    + unfold removeN. apply NoDup_filter. exact A1.
+    + intros x. rewrite In_removeN, A2. split.
+      * intros [[c2 Hc2] Hxt]. exists c2. rewrite Hpc. destruct (N.eqb c2 c) eqn:Ec; [|exact Hc2].
+        apply N.eqb_eq in Ec. subst c2. rewrite Hun in Hc2. destruct Hc2 as [H|[]]. congruence.
+      * intros [c2 Hc2]. rewrite Hpc in Hc2. destruct (N.eqb c2 c) eqn:Ec.
+        -- rewrite Hu0 in Hc2. destruct Hc2.
+        -- split; [exists c2; exact Hc2|]. intros ->.
+           assert (Hne : c2 <> c) by (intros ->; rewrite N.eqb_refl in Ec; discriminate).
+           pose proof (unswapped_target _ _ Hc2) as T2.
+           apply (i_distinct I c2 c t Hne T2). rewrite E. reflexivity.
+    + change (cat_keys (set_proc s1 c p')) with (cat_keys s1).
+      change (rowsof (set_proc s1 c p')) with (rowsof s).
+      assert (P1 : Permutation (flat_map (rowsof s) (cat_keys s))
+                     (flat_map (rowsof s) (cat_keys s1) ++ flat_map (rowsof s) g)).
+      { rewrite <- flat_map_app. apply Permutation_flat_map.
+        unfold s1 at 1. unfold cat_keys at 2. simpl. rewrite Hkeys.
+        apply perm_split_filter; [exact (b_nodup B)|exact Hgnd|exact Hgin]. }
+      assert (P2 : Permutation (flat_map (rowsof s) U)
+                     (flat_map (rowsof s) g ++ flat_map (rowsof s) (removeN t U))).
+      { eapply Permutation_trans; [apply Permutation_flat_map; apply (perm_take_out U t A1 HtU)|].
+        simpl. apply Permutation_app_tail. exact Hex. }
+      apply Permutation_app_inv_r with (l := flat_map (rowsof s) g).
+      eapply Permutation_trans; [apply Permutation_sym; exact P1|].
+      eapply Permutation_trans; [exact A3|].
+      eapply Permutation_trans; [apply Permutation_app_head; exact P2|].
+      rewrite <- app_assoc. apply Permutation_app_head. apply Permutation_app_comm.
+Qed.
+
+Lemma unswapped_after_reads l g acc : unswapped (after_reads l g acc) = [].
+Proof. unfold after_reads. destruct acc; reflexivity. Qed.
+
+Lemma claims_after_reads l g acc : claims (after_reads l g acc) = g \/ claims (after_reads l g acc) = [].
+Proof. unfold after_reads. destruct acc; simpl; auto. Qed.
+
+Lemma pc_exact_after_reads s l g acc : acc = flat_map (rowsof s) g -> pc_exact s (after_reads l g acc).
+Proof.
+  intros H. unfold after_reads. destruct acc as [|a r]; [exact Logic.I|].
+  change (Permutation (isort (a :: r)) (flat_map (rowsof s) g)).
+  rewrite <- H. apply isort_perm.
+Qed.
+
+Lemma rows_at_rowsof s q : present s q = true -> rows_at s q = rowsof s q.
+Proof.
+  intros H. destruct (rows_at_present _ _ H) as [rs [H1 H2]]. unfold rowsof. rewrite H1. exact H2.
+Qed.
+
+Ltac shrink E :=
+  apply invb_shrink;
+  [ assumption
+  | unfold pcof; rewrite E; simpl; try rewrite unswapped_after_reads; reflexivity
+  | unfold pcof; rewrite E; simpl; auto using claims_after_reads
+  | simpl; auto ].
+
+Lemma step_proc_invb V0 R0 s c f :
+  inv R0 s -> invb V0 s -> bad_step s (LStep c f) = 0 -> invb V0 (fst (step_proc s c f)).
+Proof.
+  intros I B Hbad. unfold step_proc. simpl in Hbad.
+  pose proof (b_exact B c) as Hex. unfold pcof in Hex.
+  revert Hex Hbad. destruct (p_pc (get_proc s c)) eqn:E; intros Hex Hbad; simpl in Hex.
+  - exact B.
+  - (* PJob *)
+    destruct f; simpl; try (shrink E; fail).
+    destruct g as [|a r]; simpl; [shrink E|].
+    shrink E. exists []. split; reflexivity.
+  - (* PRead *)
+    destruct Hex as [done [Hg Hacc]].
+    destruct todo as [|q rest]; simpl.
+    + shrink E. apply pc_exact_after_reads. rewrite Hg, app_nil_r. exact Hacc.
+    + destruct f; simpl; try (shrink E; fail).
+      destruct (present s q) eqn:Ep; simpl; [|shrink E].
+      rewrite (rows_at_rowsof _ _ Ep).
+      assert (Hacc' : acc ++ rowsof s q = flat_map (rowsof s) (done ++ [q])).
+      { rewrite flat_map_app. simpl. rewrite app_nil_r, Hacc. reflexivity. }
+      destruct rest as [|q2 rest2].
+      * shrink E. apply pc_exact_after_reads. rewrite Hg. exact Hacc'.
+      * shrink E. exists (done ++ [q]). split; [|exact Hacc'].
+        rewrite Hg, <- app_assoc. reflexivity.
+  - (* PPut *)
+    destruct f; simpl.
+    + pose proof (invb_put V0 R0 s rows I B) as B1.
+      pose proof (b_exact B1 c) as Hex1. unfold pcof in Hex1.
+      change (get_proc (put_object s rows) c) with (get_proc s c) in Hex1. rewrite E in Hex1.
+      assert (E1 : p_pc (get_proc (put_object s rows) c) = PPut l g rows) by exact E.
+      change (get_proc s c) with (get_proc (put_object s rows) c).
+      shrink E1.
+    + assert (B1 : invb V0 (skip_path s)) by (apply invb_ext with (s := s); auto).
+      assert (E1 : p_pc (get_proc (skip_path s) c) = PPut l g rows) by exact E.
+      change (get_proc s c) with (get_proc (skip_path s) c).
+      shrink E1.
+    + pose proof (invb_put V0 R0 s rows I B) as B1.
+      assert (E1 : p_pc (get_proc (put_object s rows) c) = PPut l g rows) by exact E.
+      change (get_proc s c) with (get_proc (put_object s rows) c).
+      shrink E1.
+  - (* PReg *)
+    destruct f; simpl; [|shrink E|discriminate].
+    eapply invb_register; eauto.
+  - (* PSwap *)
+    destruct f; simpl; [|discriminate|].
+    + destruct (cat_complete (s_cat s) g t) eqn:Ecc; [|discriminate].
+      eapply invb_swap; eauto; simpl; auto.
+    + destruct (cat_complete (s_cat s) g t) eqn:Ecc; [|discriminate].
+      eapply invb_swap; eauto; simpl; auto.
+  - (* PJobDone *) destruct f; simpl; shrink E.
+  - (* PLeaseDone *)
+    destruct f; simpl.
+    + set (s1 := set_leases s (lease_set_status l 1 (s_leases s))).
+      assert (B1 : invb V0 s1) by (apply invb_ext with (s := s); auto).
+      assert (E1 : p_pc (get_proc s1 c) = PLeaseDone l g) by exact E.
+      change (get_proc s c) with (get_proc s1 c). shrink E1.
+    + shrink E.
+    + set (s1 := set_leases s (lease_set_status l 1 (s_leases s))).
+      assert (B1 : invb V0 s1) by (apply invb_ext with (s := s); auto).
+      assert (E1 : p_pc (get_proc s1 c) = PLeaseDone l g) by exact E.
+      change (get_proc s c) with (get_proc s1 c). shrink E1.
+  - (* PJobFail *) destruct f; simpl; shrink E.
+  - (* PLeaseFail *)
+    destruct f; simpl.
+    + set (s1 := set_leases s (lease_set_status l 2 (s_leases s))).
+      assert (B1 : invb V0 s1) by (apply invb_ext with (s := s); auto).
+      assert (E1 : p_pc (get_proc s1 c) = PLeaseFail l) by exact E.
+      change (get_proc s c) with (get_proc s1 c). shrink E1.
+    + shrink E.
+    + set (s1 := set_leases s (lease_set_status l 2 (s_leases s))).
+      assert (B1 : invb V0 s1) by (apply invb_ext with (s := s); auto).
+      assert (E1 : p_pc (get_proc s1 c) = PLeaseFail l) by exact E.
+      change (get_proc s c) with (get_proc s1 c). shrink E1.
+Qed.
+
+Lemma others_spec s c c' : c' <> c -> In (get_proc s c') (others s c) \/ get_proc s c' = proc0.
+Proof.
+  intros Hne. unfold get_proc, others. destruct (aget N.eqb c' (s_procs s)) as [p|] eqn:E; [left|right; reflexivity].
+  apply (aget_In N.eqb Neqb_spec) in E. apply in_map_iff. exists (c', p). split; [reflexivity|].
+  apply filter_In. split; [exact E|]. simpl. rewrite negb_true_iff. apply N.eqb_neq. exact Hne.
+Qed.
+
+Lemma existsb_false {A} (f : A -> bool) l : existsb f l = false -> forall x, In x l -> f x = false.
+Proof.
+  intros H x Hx. destruct (f x) eqn:E; [|reflexivity].
+  assert (existsb f l = true) by (apply existsb_exists; exists x; split; assumption). congruence.
+Qed.
+
+Lemma step_start_invb V0 R0 s c g f :
+  inv R0 s -> invb V0 s -> bad_step s (LStart c g f) = 0 -> invb V0 (fst (step_start s c g f)).
+Proof.
+  intros I B Hbad. unfold step_start.
+  destruct (start_ok s c g) eqn:Eok; simpl; [|exact B].
+  destruct f; simpl; try exact B.
+  - destruct (lease_conflict (s_clock s) (drop_expired (s_clock s) (s_leases s)) g) eqn:Econf; simpl.
+    + destruct (s_local s); [|exact B]. apply invb_ext with (s := s); auto.
+    + unfold bad_step, acquires in Hbad. rewrite Eok, Econf in Hbad. simpl in Hbad.
+      destruct (inclb g (akeys (s_cat s))) eqn:Ei; simpl in Hbad; [|discriminate].
+      destruct (existsb (fun p => negb (disjointb g (claims (p_pc p)))) (others s c)) eqn:E3; [discriminate|].
+      destruct (existsb (fun p => negb (disjointb g (unswapped (p_pc p)))) (others s c)) eqn:E5; [discriminate|].
+      set (s1 := bump_lease_id (set_leases s (lease_insert (s_clock s) (acquire_ttl s) (s_nextl s) g
+                                               (drop_expired (s_clock s) (s_leases s))))).
+      assert (B1 : invb V0 s1) by (apply invb_ext with (s := s); auto).
+      change (get_proc s c) with (get_proc s1 c).
+      unfold start_ok in Eok. destruct (p_pc (get_proc s c)) eqn:E; try discriminate.
+      rewrite !andb_true_iff in Eok. destruct Eok as [[Hnd _] _].
+      apply invb_set_proc; simpl; auto.
+      * unfold pcof. change (get_proc s1 c) with (get_proc s c). rewrite E. reflexivity.
+      * apply nodupb_NoDup. exact Hnd.
+      * apply inclb_incl. exact Ei.
+      * intros c' Hne x Hx. change (pcof s1 c') with (pcof s c'). unfold pcof.
+        destruct (others_spec s c c' Hne) as [Ho|Ho].
+        -- pose proof (existsb_false _ _ E3 _ Ho) as H3. pose proof (existsb_false _ _ E5 _ Ho) as H5.
+           simpl in H3, H5. rewrite negb_false_iff in H3, H5.
+           split; [exact (disjointb_spec _ _ H3 x Hx)|exact (disjointb_spec _ _ H5 x Hx)].
+        -- rewrite Ho. simpl. split; intros [].
+  - destruct (lease_conflict (s_clock s) (drop_expired (s_clock s) (s_leases s)) g); simpl.
+    + destruct (s_local s); [|exact B]. apply invb_ext with (s := s); auto.
+    + apply invb_ext with (s := s); auto.
+Qed.
+
+Lemma step_invb V0 R0 s lb :
+  inv R0 s -> invb V0 s -> bad_step s lb = 0 -> invb V0 (fst (step s lb)).
+Proof.
+  intros I B Hbad. destruct lb; simpl.
+  - (* LList *)
+    apply invb_shrink; simpl; auto. apply (b_exact B c).
+  - eapply step_start_invb; eauto.
+  - eapply step_proc_invb; eauto.
+  - (* LRenew *)
+    destruct (memN l (p_renew (get_proc s c))); simpl; [|exact B].
+    destruct (lease_renew (s_clock s) (renew_ttl s) l (s_leases s)); simpl.
+    + apply invb_ext with (s := s); auto.
+    + apply invb_shrink; simpl; auto. apply (b_exact B c).
+  - (* LDel *)
+    destruct (memN p (p_pending (get_proc s c))); simpl; [|exact B].
+    assert (B1 : invb V0 (set_proc s c (mkProc (p_pc (get_proc s c)) (p_snap (get_proc s c))
+                               (removeN p (p_pending (get_proc s c))) (p_renew (get_proc s c))
+                               (p_active (get_proc s c))))).
+    { apply invb_shrink; simpl; auto. apply (b_exact B c). }
+    destruct f; simpl; try exact B1; eapply invb_ext; try exact B1; reflexivity.
+  - (* LScav *) apply invb_ext with (s := s); auto.
+  - (* LCrash *)
+    simpl in Hbad. apply invb_shrink; simpl; auto.
+    unfold pcof. destruct (p_pc (get_proc s c)); try reflexivity. discriminate.
+  - (* LTick *) apply invb_ext with (s := s); auto.
+Qed.
+
+Lemma run_both R0 V0 sched : forall s,
+  inv R0 s -> invb V0 s -> known_class s sched = 0 ->
+  inv R0 (run sched s) /\ invb V0 (run sched s).
+Proof.
+  unfold run. induction sched as [|lb r IH]; intros s I B Hk; simpl; [split; assumption|].
+  simpl in Hk. destruct (bad_step s lb) eqn:Eb; [|discriminate].
+  apply IH; [apply step_inv; exact I|eapply step_invb; eauto|exact Hk].
+Qed.
+
+Lemma quiescent_idle s : quiescent s = true -> forall c, pcof s c = Idle.
+Proof.
+  unfold quiescent. rewrite forallb_forall. intros H c. unfold pcof, get_proc.
+  destruct (aget N.eqb c (s_procs s)) as [p|] eqn:E; [|reflexivity].
+  apply (aget_In N.eqb Neqb_spec) in E. specialize (H _ E). simpl in H.
+  destruct (p_pc p); try discriminate. reflexivity.
+Qed.
+
+Lemma wf0_invb s : wf0 s -> NoDup (cat_keys s) -> invb (visible s) s.
+Proof.
+  intros Hwf Hnd. pose proof (wf0_inv s Hwf) as I. destruct Hwf as [Hp _].
+  assert (Hg : forall c, pcof s c = Idle) by (intros c; unfold pcof; rewrite get_proc_nil by exact Hp; reflexivity).
+  constructor.
+  - exact Hnd.
+  - intros c. rewrite Hg. simpl. split; [constructor|intros x []].
+  - intros c t. rewrite Hg. intros [].
+  - intros c c' _. rewrite !Hg. split; intros x [].
+  - intros c. rewrite Hg. exact Logic.I.
+  - exists []. split; [constructor|split].
+    + intros t. split; [intros []|]. intros [c Hc]. rewrite Hg in Hc. destruct Hc.
+    + simpl. rewrite app_nil_r. rewrite (visible_rowsof _ _ I). apply Permutation_refl.
+Qed.
+
+(* (b) = C03_modulo_known: outside the known classes, whenever no compaction
+   is in progress the rows reachable through the catalog are exactly the
+   initial multiset (each row as often as it was there — once) *)
+Theorem exact_when_quiescent :
+  forall (sched : list label) (s0 : state),
+  wf0 s0 -> NoDup (cat_keys s0) ->
+  known_class s0 sched = 0 ->
+  quiescent (run sched s0) = true ->
+  Permutation (visible (run sched s0)) (visible s0).
+Proof.
+  intros sched s0 Hwf Hnd Hk Hq.
+  destruct (run_both (visible s0) (visible s0) sched s0 (wf0_inv s0 Hwf) (wf0_invb s0 Hwf Hnd) Hk) as [I B].
+  destruct (b_vis B) as [U [_ [HU HP]]].
+  assert (U = []).
+  { destruct U as [|t r]; [reflexivity|]. exfalso.
+    destruct (proj1 (HU t) (or_introl eq_refl)) as [c Hc].
+    rewrite (quiescent_idle _ Hq c) in Hc. destruct Hc. }
+  subst U. simpl in HP. rewrite app_nil_r in HP.
+  rewrite (visible_rowsof _ _ I). exact HP.
+Qed.
+
+(* while compactions are in progress (outside the known classes) the only
+   surplus is the content of the registered targets whose swap is outstanding:
+   every initial row is there at least once, and at most once more per such target *)
+Theorem surplus_is_unswapped_targets :
+  forall (sched : list label) (s0 : state),
+  wf0 s0 -> NoDup (cat_keys s0) -> known_class s0 sched = 0 ->
+  let s := run sched s0 in
+  exists U, NoDup U /\ (forall t, In t U <-> exists c, In t (unswapped (pcof s c))) /\
+            Permutation (visible s) (visible s0 ++ flat_map (rowsof s) U).
+Proof.
+  intros sched s0 Hwf Hnd Hk s.
+  destruct (run_both (visible s0) (visible s0) sched s0 (wf0_inv s0 Hwf) (wf0_invb s0 Hwf Hnd) Hk) as [I B].
+  destruct (b_vis B) as [U [H1 [H2 H3]]]. exists U. split; [exact H1|split; [exact H2|]].
+  unfold s. rewrite (visible_rowsof _ _ I). exact H3.
+Qed.
+
+(* ------------------------------------------------------------------ *)
+(* initial states built by [init]                                       *)
+(* ------------------------------------------------------------------ *)
+Lemma next_free_acc keys : forall a, a <= fold_left (fun a p => N.max a (p + 1)) keys a.
+Proof.
+  induction keys as [|x r IH]; intros a; simpl; [apply N.le_refl|].
+  eapply N.le_trans; [apply N.le_max_l|apply IH].
+Qed.
+
+Lemma next_free_gt keys p : In p keys -> p < next_free keys.
+Proof.
+  unfold next_free. generalize 0. induction keys as [|x r IH]; intros a Hin; simpl; [destruct Hin|].
+  destruct Hin as [->|Hin]; [|apply IH; exact Hin].
+  eapply N.lt_le_trans; [|apply next_free_acc].
+  eapply N.lt_le_trans; [|apply N.le_max_r]. apply N.lt_add_pos_r. reflexivity.
+Qed.
+
+Lemma wf0_init local chunks : wf0 (init local chunks).
+Proof.
+  unfold wf0, init, cat_keys, akeys; simpl. repeat split.
+  - intros p Hp. rewrite map_map in Hp. simpl in Hp. apply next_free_gt. exact Hp.
+  - intros p Hp. rewrite map_map in Hp. simpl in Hp. apply next_free_gt. exact Hp.
+  - destruct H.
+  - destruct H.
+Qed.
+
+Lemma cat_keys_init local chunks : cat_keys (init local chunks) = map (fun e => fst (fst e)) chunks.
+Proof. unfold cat_keys, akeys, init; simpl. rewrite map_map. reflexivity. Qed.
+
+(* ------------------------------------------------------------------ *)
+(* known classes: witnesses (each replayed on the real code by the       *)
+(* harness corpus)                                                      *)
+(* ------------------------------------------------------------------ *)
+Definition two_l0 (local : bool) : state := init local [(1, 0, [1; 2]); (2, 0, [3; 4])].
+
+Definition all_ok (c : cid) (n : nat) : list label := repeat (LStep c FOk) n.
+
+(* K1a: register_chunk took effect but an error came back: Err arm, lease
+   failed, target (level 0) and sources stay catalogued *)
+Definition k1_register_fail_after : list label :=
+  [LList 0; LStart 0 [1; 2] FOk] ++ all_ok 0 4 ++ [LStep 0 FAfter] ++ all_ok 0 2.
+(* K1b: crash between register_chunk and complete_compaction *)
+Definition k1_crash_before_swap : list label :=
+  [LList 0; LStart 0 [1; 2] FOk] ++ all_ok 0 5 ++ [LCrash 0].
+(* K1c: complete_compaction fails before taking effect: `?` leaves the cycle *)
+Definition k1_swap_fail_before : list label :=
+  [LList 0; LStart 0 [1; 2] FOk] ++ all_ok 0 5 ++ [LStep 0 FBefore].
+(* ... and the next cycle merges target and sources into one chunk *)
+Definition k1_then_remerge : list label :=
+  k1_register_fail_after ++ [LList 0; LStart 0 [1; 2; 3] FOk] ++ all_ok 0 9.
+
+(* K2: compactor 1 got its candidate list before compactor 0 compacted the
+   group; the objects are still in the store (GC grace period) *)
+Definition k2_stale_candidates : list label :=
+  [LList 1; LList 0; LStart 0 [1; 2] FOk] ++ all_ok 0 8 ++ [LStart 1 [1; 2] FOk] ++ all_ok 1 8.
+
+(* K3: compactor 0's lease expires while it is still reading; compactor 1
+   acquires the same chunks; both publish *)
+Definition k3_lease_lost : list label :=
+  [LList 0; LList 1; LStart 0 [1; 2] FOk] ++ all_ok 0 3 ++ [LTick 301; LStart 1 [1; 2] FOk] ++
+  all_ok 1 8 ++ all_ok 0 5.
+
+(* K5: a level-1 merge has registered its target (at level 0); an L0 pass of
+   the other compactor compacts that target before the swap; the swap then
+   fails with "target not found" and the sources stay *)
+Definition l1_pair : state := init true [(1, 1, [1; 2]); (2, 1, [3])].
+Definition k5_unswapped_target : list label :=
+  [LList 0; LStart 0 [1; 2] FOk] ++ all_ok 0 5 ++ [LList 1; LStart 1 [3] FOk] ++ all_ok 1 7 ++ [LStep 0 FOk].
+
+Definition refutes (s0 : state) (sched : list label) (k : N) : Prop :=
+  wf0 s0 /\ NoDup (cat_keys s0) /\ known_class s0 sched = k /\
+  quiescent (run sched s0) = true /\
+  ~ Permutation (visible (run sched s0)) (visible s0).
+
+Ltac refute :=
+  unfold refutes; split; [apply wf0_init|split; [|split; [|split]]];
+  [ apply nodupb_NoDup; vm_compute; reflexivity
+  | vm_compute; reflexivity
+  | vm_compute; reflexivity
+  | let P := fresh in intros P; apply Permutation_length in P; vm_compute in P; discriminate ].
+
+Lemma C03_refuted_register_swap_gap_error : refutes (two_l0 true) k1_register_fail_after 1.
+Proof. refute. Qed.
+Lemma C03_refuted_register_swap_gap_crash : refutes (two_l0 false) k1_crash_before_swap 1.
+Proof. refute. Qed.
+Lemma C03_refuted_register_swap_gap_swap_error : refutes (two_l0 false) k1_swap_fail_before 1.
+Proof. refute. Qed.
+Lemma C03_refuted_stale_candidates : refutes (two_l0 true) k2_stale_candidates 2.
+Proof. refute. Qed.
+Lemma C03_refuted_lease_lost : refutes (two_l0 false) k3_lease_lost 3.
+Proof. refute. Qed.
+Lemma C03_refuted_unswapped_target : refutes l1_pair k5_unswapped_target 5.
+Proof. refute. Qed.
+
+(* what the duplicates look like *)
+Example k1_catalog_after_error :
+  visible (run k1_register_fail_after (two_l0 true)) = [1; 2; 3; 4; 1; 2; 3; 4].
+Proof. vm_compute. reflexivity. Qed.
+Example k1_duplicates_baked_into_one_chunk :
+  let s := run k1_then_remerge (two_l0 true) in
+  map fst (s_cat s) = [4] /\ visible s = [1; 1; 2; 2; 3; 3; 4; 4].
+Proof. vm_compute. split; reflexivity. Qed.
+Example k5_swap_fails_target_not_found :
+  snd (step (run (removelast k5_unswapped_target) l1_pair) (LStep 0 FOk)) = (7, 3, 1).
+Proof. vm_compute. reflexivity. Qed.
+
+(* non-vacuity of exact_when_quiescent: two interleaved compactors, one fault
+   before effect, one fault after effect (the swap!), one crash — outside the
+   known classes; two merges are published *)
+Definition four_chunks : state :=
+  init false [(1, 0, [1; 2]); (2, 0, [4; 3]); (3, 1, [5]); (4, 1, [6; 7])].
+Definition clean_schedule : list label :=
+  [LList 0; LList 1; LStart 0 [1; 2] FOk; LStart 1 [3; 4] FOk; LStep 0 FOk; LStep 1 FOk;
+   LStep 1 FBefore (* GET fails: Err arm *); LStep 0 FOk; LStep 0 FOk; LStep 1 FOk; LStep 1 FOk;
+   LStep 0 FOk; LStep 0 FOk; LStep 0 FAfter (* swap took effect, error returned *);
+   LCrash 1; LTick 400; LList 1; LStart 1 [3; 4] FOk] ++ all_ok 1 8 ++ [LDel 1 3 FOk; LScav 1].
+Example exact_when_quiescent_nonvacuous :
+  wf0 four_chunks /\ NoDup (cat_keys four_chunks) /\
+  known_class four_chunks clean_schedule = 0 /\
+  quiescent (run clean_schedule four_chunks) = true /\
+  visible (run clean_schedule four_chunks) = [1; 2; 3; 4; 5; 6; 7] /\
+  level_of (run clean_schedule four_chunks) 5 = Some 1 /\
+  level_of (run clean_schedule four_chunks) 6 = Some 2.
+Proof.
+  split; [apply wf0_init|split].
+  - apply nodupb_NoDup. vm_compute. reflexivity.
+  - vm_compute. repeat split; reflexivity.
+Qed.
+
+(* ------------------------------------------------------------------ *)
+(* K4 (liveness): a `?` after acquire_lease leaks the renewal task; the  *)
+(* lease stays live for any number of renewal periods, so the chunks    *)
+(* are never compacted again while that process runs                    *)
+(* ------------------------------------------------------------------ *)
+Definition renew_round (c : cid) (l : lid) : list label :=
+  [LTick Consts.C03_RENEWAL_PERIOD_SECS; LRenew c l].
+Fixpoint rounds (n : nat) (c : cid) (l : lid) : list label :=
+  match n with O => [] | S k => renew_round c l ++ rounds k c l end.
+
+Definition holds_lease (s : state) (c : cid) (l : lid) (chunks : list path) : Prop :=
+  In l (p_renew (get_proc s c)) /\
+  exists le, aget N.eqb l (s_leases s) = Some le /\ l_status le = 0 /\ l_chunks le = chunks.
+
+Definition lease_is_live (s : state) (l : lid) (chunks : list path) : Prop :=
+  exists le, aget N.eqb l (s_leases s) = Some le /\ l_chunks le = chunks /\ lease_live (s_clock s) le = true.
+
+Lemma renew_ttl_pos s : (0 < renew_ttl s)%Z.
+Proof. unfold renew_ttl. destruct (s_local s); vm_compute; reflexivity. Qed.
+
+Lemma round_keeps s c l ch :
+  holds_lease s c l ch ->
+  holds_lease (run (renew_round c l) s) c l ch /\ lease_is_live (run (renew_round c l) s) l ch.
+Proof.
+  intros [Hr [le [Hl [Hs Hc]]]]. unfold run, renew_round. simpl.
+  change (get_proc (set_clock s (s_clock s + Z.max C03_RENEWAL_PERIOD_SECS 0)%Z) c) with (get_proc s c).
+  apply memN_In in Hr. rewrite Hr. unfold lease_renew. simpl. rewrite Hl, Hs. simpl.
+  set (now := (s_clock s + Z.max C03_RENEWAL_PERIOD_SECS 0)%Z).
+  change (renew_ttl (set_clock s now)) with (renew_ttl s).
+  split.
+  - split; [apply memN_In; exact Hr|].
+    eexists. split; [apply (aget_aset_same N.eqb Neqb_spec)|split; [reflexivity|exact Hc]].
+  - eexists. split; [apply (aget_aset_same N.eqb Neqb_spec)|split; [exact Hc|]].
+    unfold lease_live; simpl. apply Z.ltb_lt. pose proof (renew_ttl_pos s). lia.
+Qed.
+
+Lemma run_app a b s : run (a ++ b) s = run b (run a s).
+Proof. unfold run. apply fold_left_app. Qed.
+
+Theorem lease_leak_forever :
+  forall (n : nat) (s : state) (c : cid) (l : lid) (ch : list path),
+  holds_lease s c l ch ->
+  holds_lease (run (rounds n c l) s) c l ch /\
+  (n <> O -> lease_is_live (run (rounds n c l) s) l ch).
+Proof.
+  induction n as [|k IH]; intros s c l ch H.
+  - split; [exact H|congruence].
+  - change (rounds (S k) c l) with (renew_round c l ++ rounds k c l).
+    rewrite run_app. destruct (round_keeps s c l ch H) as [H1 L1].
+    destruct (IH _ c l ch H1) as [H2 L2]. split; [exact H2|]. intros _.
+    destruct k; [exact L1|apply L2; discriminate].
+Qed.
+
+(* a live lease refuses every group that mentions one of its chunks *)
+Lemma live_lease_conflict s l ch p g :
+  lease_is_live s l ch -> In p ch -> In p g ->
+  lease_conflict (s_clock s) (drop_expired (s_clock s) (s_leases s)) g = true.
+Proof.
+  intros [le [Hl [Hc Hlive]]] Hp Hg. unfold lease_conflict. apply existsb_exists. exists p. split; [exact Hg|].
+  apply memN_In. unfold leased_chunks. apply in_flat_map. exists (l, le). split.
+  - unfold drop_expired. apply filter_In. split; [apply (aget_In N.eqb Neqb_spec); exact Hl|].
+    simpl. unfold lease_live in Hlive. apply andb_true_iff in Hlive. destruct Hlive as [_ H2].
+    apply Z.ltb_lt in H2. rewrite negb_true_iff, andb_false_iff. right. apply Z.leb_gt. exact H2.
+  - simpl. rewrite Hlive, Hc. exact Hp.
+Qed.
+
+Lemma in_aset {V} k (v : V) l e : In e (aset N.eqb k v l) -> In e l \/ e = (k, v).
+Proof.
+  induction l as [|[k' v'] r IH]; simpl.
+  - intros [H|[]]. right. symmetry. exact H.
+  - destruct (N.eqb k k') eqn:E; simpl.
+    + apply N.eqb_eq in E. subst k'. intros [H|H]; [right; symmetry; exact H|left; right; exact H].
+    + intros [H|H]; [left; left; exact H|]. destruct (IH H) as [H'|H']; [left; right; exact H'|right; exact H'].
+Qed.
+
+Lemma quiescent_set_proc s c p : quiescent s = true -> p_pc p = Idle -> quiescent (set_proc s c p) = true.
+Proof.
+  unfold quiescent. rewrite !forallb_forall. intros H Hp e He. simpl in He.
+  destruct (in_aset _ _ _ _ He) as [H1| ->]; [apply H; exact H1|]. simpl. rewrite Hp. reflexivity.
+Qed.
+
+Lemma renew_step_quiescent s c l : quiescent s = true -> quiescent (fst (step s (LRenew c l))) = true.
+Proof.
+  intros Hq. simpl.
+  destruct (memN l (p_renew (get_proc s c))); simpl; [|exact Hq].
+  destruct (lease_renew (s_clock s) (renew_ttl s) l (s_leases s)); simpl; [exact Hq|].
+  apply quiescent_set_proc; [exact Hq|]. simpl. apply (quiescent_idle _ Hq c).
+Qed.
+
+Lemma round_quiescent s c l : quiescent s = true -> quiescent (run (renew_round c l) s) = true.
+Proof.
+  intros Hq. unfold run, renew_round.
+  change (fold_left (fun s0 lb => fst (step s0 lb)) [LTick C03_RENEWAL_PERIOD_SECS; LRenew c l] s)
+    with (fst (step (fst (step s (LTick C03_RENEWAL_PERIOD_SECS))) (LRenew c l))).
+  apply renew_step_quiescent. exact Hq.
+Qed.
+
+Lemma rounds_quiescent n c l : forall s, quiescent s = true -> quiescent (run (rounds n c l) s) = true.
+Proof.
+  induction n as [|k IH]; intros s Hq; [exact Hq|].
+  change (rounds (S k) c l) with (renew_round c l ++ rounds k c l).
+  rewrite run_app. apply IH. apply round_quiescent. exact Hq.
+Qed.
+
+(* the witness: create_compaction_job fails -> cycle left with `?` *)
+Definition k4_job_error : list label := [LList 0; LStart 0 [1; 2] FOk; LStep 0 FBefore].
+
+Theorem C03_K4_lease_leaked_and_renewed_forever :
+  forall (local : bool) (n : nat) (g : list path),
+  let s := run (rounds (S n) 0 1) (run k4_job_error (two_l0 local)) in
+  quiescent s = true /\
+  ((In 1 g \/ In 2 g) -> lease_conflict (s_clock s) (drop_expired (s_clock s) (s_leases s)) g = true).
+Proof.
+  intros local n g s.
+  assert (H0 : holds_lease (run k4_job_error (two_l0 local)) 0 1 [1; 2]).
+  { destruct local; (split; [vm_compute; auto|eexists; split; [vm_compute; reflexivity|split; reflexivity]]). }
+  destruct (lease_leak_forever (S n) _ 0 1 [1; 2] H0) as [[_ _] L].
+  split.
+  - unfold s. apply rounds_quiescent. destruct local; vm_compute; reflexivity.
+  - intros Hg. destruct Hg as [Hg|Hg].
+    + eapply (live_lease_conflict s 1 [1; 2] 1); [apply L; discriminate|left; reflexivity|exact Hg].
+    + eapply (live_lease_conflict s 1 [1; 2] 2); [apply L; discriminate|right; left; reflexivity|exact Hg].
+Qed.
+
+(* ------------------------------------------------------------------ *)
+(* the reduced catalog of this model is the level projection of the     *)
+(* object-store catalog model of C07 / C02 (Model/Catalog.v)            *)
+(* ------------------------------------------------------------------ *)
+Definition levels_of (c : cat) : lcatalog := map (fun e => (fst e, e_level (snd e))) (c_chunks c).
+
+Section MapVals.
+  Context {V W : Type}.
+  Variable f : V -> W.
+  Let mapv (l : list (N * V)) : list (N * W) := map (fun e => (fst e, f (snd e))) l.
+
+  Lemma aget_mapv k l : aget N.eqb k (mapv l) = option_map f (aget N.eqb k l).
+  Proof.
+    induction l as [|[k' v'] r IH]; simpl; [reflexivity|].
+    destruct (N.eqb k k'); [reflexivity|exact IH].
+  Qed.
+  Lemma aset_mapv k v l : mapv (aset N.eqb k v l) = aset N.eqb k (f v) (mapv l).
+  Proof.
+    induction l as [|[k' v'] r IH]; simpl; [reflexivity|].
+    destruct (N.eqb k k'); simpl; [reflexivity|f_equal; exact IH].
+  Qed.
+  Lemma adel_mapv k l : mapv (adel N.eqb k l) = adel N.eqb k (mapv l).
+  Proof.
+    induction l as [|[k' v'] r IH]; simpl; [reflexivity|].
+    destruct (N.eqb k k'); simpl; [exact IH|f_equal; exact IH].
+  Qed.
+End MapVals.
+
+Lemma max_level_ext (f g : path -> option N) srcs : (forall p, f p = g p) -> max_level f srcs = max_level g srcs.
+Proof.
+  intros H. unfold max_level. generalize 0. induction srcs as [|x r IH]; intros a; simpl; [reflexivity|].
+  rewrite H. apply IH.
+Qed.
+
+Lemma refine_register c p m : levels_of (s3_register c p m) = cat_register (levels_of c) p.
+Proof. unfold levels_of, s3_register, cat_register; simpl. apply (aset_mapv e_level). Qed.
+
+Lemma refine_remove srcs : forall c,
+  levels_of (fold_left (fun c p => mkCat (adel N.eqb p (c_chunks c)) (ti_retain_all p (c_tindex c))) srcs c)
+  = cat_remove_all (levels_of c) srcs.
+Proof.
+  unfold cat_remove_all. induction srcs as [|x r IH]; intros c; simpl; [reflexivity|].
+  rewrite IH. unfold levels_of at 1; simpl. rewrite (adel_mapv e_level). reflexivity.
+Qed.
+
+Theorem refine_complete c srcs tgt :
+  option_map levels_of (s3_complete c srcs tgt) = cat_complete (levels_of c) srcs tgt.
+Proof.
+  unfold s3_complete, cat_complete.
+  rewrite (max_level_ext (fun p => aget N.eqb p (levels_of c))
+                         (fun p => option_map e_level (aget N.eqb p (c_chunks c)))) by (intros p; apply (aget_mapv e_level)).
+  rewrite <- refine_remove.
+  match goal with |- context [fold_left ?f srcs c] => set (c1 := fold_left f srcs c) end.
+  unfold amem. unfold levels_of at 2. rewrite (aget_mapv e_level).
+  destruct (aget N.eqb tgt (c_chunks c1)) as [e|]; simpl; [|reflexivity].
+  f_equal. unfold levels_of; simpl. rewrite (aset_mapv e_level). reflexivity.
+Qed.
